@@ -53,6 +53,12 @@ STRUCT = {
     "screw-P21": dict(lat=rnp.diag([1.0, 1.3, 1.7]), pos=[[0.13, 0.21, 0.1], [-0.13, -0.21, 0.6]], names=["A", "A"], proj=["A:s"]),
     "tetragonal": dict(lat=rnp.diag([1.0, 1.0, 1.4]), pos=[[0.5, 0, 0], [0, 0.5, 0], [0, 0, 0]], names=["A", "A", "B"], proj=["A:s", "B:p"]),
     "hex-C3": dict(lat=rnp.array([[1, 0, 0], [-0.5, S3, 0], [0, 0, 1.6]]), pos=[[1 / 3, 2 / 3, 0.1], [2 / 3, 1 / 3, 0.1], [0, 0, 0.37]], names=["A", "A", "B"], proj=["A:p", "B:s"]),
+    # a four-site orbit at a general position (no mirrors, no inversion) around a p shell on the four-fold axis: orbital matrices that are
+    # neither diagonal nor symmetric, atom maps that are 4-cycles
+    "tetragonal-P4": dict(lat=rnp.diag([1.0, 1.0, 1.4]), pos=[[0.2, 0.1, 0.3], [-0.1, 0.2, 0.3], [-0.2, -0.1, 0.3], [0.1, -0.2, 0.3], [0, 0, 0]], names=["A", "A", "A", "A", "B"], proj=["A:s", "B:p"]),
+    # same-name atoms on two different two-site orbits, listed interleaved: symmetrize has to regroup them (and restore the order with reorder_back)
+    "ortho-interleaved": dict(lat=rnp.diag([1.0, 1.2, 1.5]), pos=[[0.2, 0, 0], [0, 0.3, 0], [-0.2, 0, 0], [0, -0.3, 0], [0.5, 0.5, 0.5]], names=["X", "X", "X", "X", "Y"], proj=["X:s", "Y:s"], reorder_back=True),
+    "ortho-interleaved/control": dict(lat=rnp.diag([1.0, 1.2, 1.5]), pos=[[0.2, 0, 0], [-0.2, 0, 0], [0, 0.3, 0], [0, -0.3, 0], [0.5, 0.5, 0.5]], names=["X1", "X1", "X2", "X2", "Y"], proj=["X1:s", "X2:s", "Y:s"]),
     "monoclinic-2/m": dict(lat=rnp.array([[1.0, 0, 0], [0, 1.3, 0], [0.3, 0, 1.5]]), pos=[[0.1, 0.25, 0.2], [-0.1, 0.75, -0.2], [0.4, 0.0, 0.1], [-0.4, 0.5, -0.1]], names=["A", "A", "B", "B"], proj=["A:s", "B:s"]),
 }
 NORB = {"s": 1, "p": 3}
@@ -90,7 +96,7 @@ def _setup(name, soc=False, magmom=None, seed=7, keep_system=False):
             s.set_R_mat(k, 0.5 * (X + s.rvec.conj_XX_R(X)), reset=True)
         wcc = rnp.array([a.tau for a in atoms for _ in range(a.norb)]) @ st["lat"]
         s.wannier_centers_cart = wcc + 0.01 * rnp.random.rand(nw, 3)              # centres slightly off the symmetric positions, as Wannier90 delivers them
-        symr = s.symmetrize(proj=st["proj"], positions=rnp.array(st["pos"]), atom_name=st["names"], soc=soc, magmom=magmom, silent=True)
+        symr = s.symmetrize(proj=st["proj"], positions=rnp.array(st["pos"]), atom_name=st["names"], soc=soc, magmom=magmom, silent=True, reorder_back=st.get("reorder_back", False))
     _SETUP[key] = (st, atoms, nw, symr, s)
     return _SETUP[key]
 
@@ -262,6 +268,7 @@ def _symm_unit(name, tiers):
 
 _symm_unit("ortho-mmm", ("quick", "thorough"))
 _symm_unit("screw-P21", ("quick", "thorough"))
+_symm_unit("tetragonal-P4", ("quick", "thorough"))
 _symm_unit("monoclinic-2/m", ("thorough",))
 _symm_unit("tetragonal", ("thorough",))
 _symm_unit("hex-C3", ("thorough",))
@@ -322,6 +329,7 @@ def _wcc_unit(name, tiers):
 _wcc_unit("ortho-mmm", ("quick", "thorough"))
 _wcc_unit("screw-P21", ("quick", "thorough"))
 _wcc_unit("hex-C3", ("quick", "thorough"))
+_wcc_unit("tetragonal-P4", ("quick", "thorough"))
 _wcc_unit("tetragonal", ("thorough",))
 
 
@@ -416,6 +424,12 @@ def _driver(U):
     U.external("SymWann.symmetrize (unit A), SymmetrizerSAWF.symmetrize_WCC (unit B: one pass keeps the symmetric part and contracts the rest)")
 
 
+# System_R.symmetrize regroups the Wannier functions orbit by orbit with System_R.reorder before (and, with reorder_back, after) the
+# symmetrisation: its contract (matrices, centres, R-vector shifts permuted consistently) is C05's unit, registered here as well
+from contracts.C05 import _reorder_unit as _c05_reorder
+_c05_reorder([(1, 2, 0), (0, 2, 1), (2, 1, 0)], "a 3-cycle and two transpositions", ("quick", "thorough"), prop="C20")
+
+
 # ------------------------------------------------------------------ bounded stand-in: the installed code end to end
 def _groups(E, tol=1e-6):
     g = [[0]]
@@ -427,9 +441,9 @@ def _groups(E, tol=1e-6):
     return g
 
 
-CASES = [("ortho-mmm", False, None), ("screw-P21", False, None), ("hex-C3", False, None), ("monoclinic-2/m", False, None),
+CASES = [("ortho-mmm", False, None), ("tetragonal-P4", False, None), ("hex-C3", False, None), ("ortho-interleaved", False, None),
          ("ortho-mmm", True, None), ("ortho-mmm", True, [[0, 0, 1.0], [0, 0, -1.0], [0, 0, 0]]), ("screw-P21", True, [[0, 0, 1.0], [0, 0, 1.0]]),
-         ("tetragonal", False, None), ("hex-C3", True, None), ("tetragonal", True, [[0, 0, 1.0], [0, 0, 1.0], [0, 0, 0]])]
+         ("tetragonal", False, None), ("screw-P21", False, None), ("monoclinic-2/m", False, None), ("tetragonal-P4", True, None), ("hex-C3", True, None), ("tetragonal", True, [[0, 0, 1.0], [0, 0, 1.0], [0, 0, 0]])]
 
 
 def _sym_errors(wb, s, symr, soc):
@@ -481,6 +495,9 @@ def _real_symmetrize(rng, n):
             warnings.simplefilter("ignore")
             st, atoms, nw, symr, s = _setup(name, soc=soc, magmom=mag, seed=seed, keep_system=True)
             A = s.real_lattice
+            regrouped = symr is None           # reorder_back after a regrouping: no symmetrizer is returned (it would not match the user's order)
+            if regrouped:                      # the operations: those of the same structure listed orbit by orbit
+                symr = types.SimpleNamespace(spacegroup=_setup(name + "/control")[3].spacegroup, symmetrize_WCC=lambda c_: c_)
             # --- clause "centres as stored"
             w = _sym_errors(wb, s, symr, soc)
             c = s.wannier_centers_cart.copy()
@@ -519,7 +536,10 @@ def _real_symmetrize(rng, n):
                 if abs(X - s.rvec.conj_XX_R(X)).max() > 1e-12:
                     bad_m.append("%s is not Hermitian after symmetrisation" % key)
             old = {key: _as_dict(s.get_R_mat(key).copy(), s.rvec.iRvec) for key in s._XX_R}
-            s.symmetrize2(symr, silent=True)
+            if regrouped:
+                s.symmetrize(proj=st["proj"], positions=rnp.array(st["pos"]), atom_name=st["names"], soc=soc, magmom=mag, silent=True, reorder_back=True)
+            else:
+                s.symmetrize2(symr, silent=True)
             for key in s._XX_R:
                 new = _as_dict(s.get_R_mat(key), s.rvec.iRvec)
                 zero = 0 * next(iter(new.values()))
@@ -537,4 +557,4 @@ def _real_symmetrize(rng, n):
 
 
 Unit("C20", "System_R.symmetrize on random Hermitian systems [installed code]", concrete=_real_symmetrize,
-     bounded_desc="5 structures (orthorhombic, screw axis, monoclinic, tetragonal, hexagonal with mixing p orbitals) x spinless / spin-orbit / magnetic: E(gk), Berry curvature, spin, Hermiticity, centres, idempotence for every operation at one generic k")
+     bounded_desc="6 structures (orthorhombic, screw axis, monoclinic, tetragonal 4/mmm, P4 with a four-site orbit, hexagonal with mixing p orbitals) x spinless / spin-orbit / magnetic: E(gk), Berry curvature, spin, Hermiticity, centres, idempotence for every operation at one generic k")
